@@ -13,6 +13,8 @@ def spec(tier):
     obs += parts("G.ws_symbols", F, "ws_symbols", 8, T, path_timeout=200,
                  what="workspace/symbol over two files: every substring (len 1..3) of the declared names in 3 letter cases + non-matching queries: exactly the units and module members containing the query, sorted by name")
     obs += [Script("RX", ["checks/C04_rx.py"], 300, what="END regexes as languages: every 'END <KIND> [name]' spelling is an END_WORD match whose keyword group is accepted by that construct's END regex and by no other construct's")]
+    obs += parts("G.edited_outline", F, "edited_outline", 16, T, path_timeout=200,
+                 what="incremental sync: one single-line edit ('!' inserted in column 1 / removed again, a blank inserted, first non-blank character deleted) at every line of the generated programs: the outline afterwards equals a fresh server's outline of the edited text")
     return dict(
         obligations=obs,
         functions=["FortranAST.add_scope/end_scope/close_file/get_inner_scope", "FortranFile.parse", "parse_end_scope_word", "parse_do_fixed_format",
